@@ -153,7 +153,7 @@ def run(ctx):
                      lambda c, o, why: {"op": "parse", "kind": "malformed"})
     # 3. setup / drop on the running kernel
     combos = []
-    for entries in ([1, 4, 8, 64] if quick else [1, 2, 4, 8, 16, 64, 256, 1024]):
+    for entries in ([1, 4, 8, 64, 3, 100, 1000] if quick else [1, 2, 4, 8, 16, 64, 256, 1024, 3, 5, 100, 600, 1000, 1500, 3000, 4096]):
         for flags in (0, 1 << 10, 1 << 11, (1 << 10) | (1 << 11), 1 << 4, 1 << 7, 1 << 12):
             for single in (1, 0):
                 combos.append((entries, flags, single))
@@ -196,6 +196,17 @@ def run(ctx):
                 return "mapping %s of %s bytes never unmapped (leak)" % m
         if fd_open != fd_closed:
             return "ring fd closed %d times for %d acquisitions" % (fd_closed, fd_open)
+        # io_uring ABI (io_uring_setup(2)): what each region must span for the ring the kernel laid out
+        cw = case.split()
+        flags, sq_e, cq_e, sq_arr, cq_cqes = int(cw[2]), int(cw[5]), int(cw[6]), int(cw[7]), int(cw[8])
+        need_sq = sq_arr + sq_e * 4
+        need_cq = cq_cqes + cq_e * (32 if flags & (1 << 11) else 16)
+        need = {"0": max(need_sq, need_cq) if cw[3] == "1" else need_sq, "134217728": need_cq, "268435456": sq_e * (128 if flags & (1 << 10) else 64)}
+        for t in w[1:]:
+            if t.startswith("M") and not t.startswith("ME"):
+                i, ln, off = t[1:].split(":")
+                if off in need and int(ln) < need[off]:
+                    return "mapping at offset %s spans %s bytes, the ring the kernel laid out needs %d" % (off, ln, need[off])
         fail = case.split()[4]
         if (fail == "-") != (w[0] == "ok"):
             return "setup result does not match the injected mmap failure"
@@ -213,6 +224,9 @@ def run(ctx):
     try:
         nb = 1500 if quick else 60000
         lines = ["netprobe %s/np" % tmp] + ["batch %s/b%d %d %d" % (tmp, i, ctx.rng.below(2**32), nb) for i in range(2 if quick else 6)]
+        # requested ring sizes that are not powers of two / are large (every slot position gets used: nb batches >> ring size)
+        lines += ["batch %s/c%d %d %d %d" % (tmp, i, ctx.rng.below(2**32), nb if e > 100 else nb // 3, e)
+                  for i, e in enumerate([1, 3, 1000] if quick else [1, 2, 3, 5, 100, 1000, 1500, 3000])]
         rc, outs, errt = C.run_filter([exe], lines, timeout=(100 if quick else 1700))
         ctx.evaluations += len(lines)
         ctx.extra["oracle_run"] = outs
